@@ -33,7 +33,9 @@ RULE = ("one session per unordered pair of the 33-geometry lattice catalogue (al
         "millisecond events 2^18..2^27 s along the time axis; non-trivial = the pair has a positive affinity")
 TRUSTED_BASE = ["checks/c06.py + vt/geom.py (build geometries, call compute_affinity / buffer_geometry / compute_bounds, "
                 "encode doubles as limbs and hex; division of observed bounds by the power-of-two time unit)"]
-ASSUMPTIONS = ["'iso' sessions use one numeric unit on both axes (1 tick = u s = u Hz, u = 0.5, 2, 0.125) with time_buffer = freq_buffer, so that "
+ASSUMPTIONS = ["OverlapPositive (a buffered point level with a box of positive area and closer to it than the buffer has a positive "
+               "affinity, also when they overlap only through the buffer) and DisjointRegions lean on the property's title, like RectIoU",
+               "'iso' sessions use one numeric unit on both axes (1 tick = u s = u Hz, u = 0.5, 2, 0.125) with time_buffer = freq_buffer, so that "
                "equal buffers and literally equal coordinate lists of different kinds (TimeInterval [1,2] / Point [1,2]) occur; "
                "the closed forms apply unchanged",
                "bent / oblique lines against time-only geometries: the buffered time extent is bracketed between tmin - b .. tmax + b and the "
@@ -259,7 +261,14 @@ def _random(case):
     for _ in range(50):
         a0 = rng.uniform(0.0, 2.0) if rng.random() < 0.3 else rng.uniform(1.0, 4.0)
         c1 = _rand_coords(rng, k1, a0, a0 + rng.uniform(0.3, 3.0))
-        if mode == "same":
+        if mode == "rot":                            # the same polygon, its ring started at another vertex / reversed
+            ring = c1[0][:-1]
+            r = rng.randrange(1, len(ring))
+            ring = ring[r:] + ring[:r]
+            if rng.random() < 0.5:
+                ring = ring[::-1]
+            c2 = [ring + [list(ring[0])]]
+        elif mode == "same":
             c2 = c1
         elif mode == "far":
             b0 = a0 + 3.0 + 2 * tb + rng.uniform(0.5, 2.0)
@@ -345,6 +354,8 @@ def random_cases(rng, tier):
         k1 = rng.choice(KINDS)
         mode = rng.choice(["same", "same", "near", "near", "near", "far"])
         k2 = k1 if mode == "same" else rng.choice(KINDS)
+        if mode == "same" and k1 == "Polygon" and rng.random() < 0.7:
+            mode = "rot"
         yield {"kind": "rnd", "seed": rng.randrange(1, 2**31 - 1), "k1": k1, "k2": k2, "mode": mode,
                "tb": 1, "fb": 1, "ds": [0, 1],
                "prov": [rng.choice([0, 0, 1, 2, 3]), rng.choice([0, 0, 1, 2, 3])]}
